@@ -65,6 +65,8 @@ func runC05(w *World, r *Report) {
 	r.Rule("trailing", "decoders test the input length with lower bounds only", 60)
 	r.Rule("codes", "the code a constructor stores selects, in the dispatcher, the kind that constructor returns", 30)
 	r.Rule("retain", "elements decoded in list loops are stored into the receiver", 8)
+	r.Rule("extent", "the size an element reports (by which list decoders advance) equals the bytes its encoder produces", 100)
+	r.Rule("fresh", "a value decoded into inside a list loop is new in each iteration (or fully overwritten by the child decoder)", 12)
 
 	nKinds := 0
 	for _, k := range w.KindsL {
@@ -79,6 +81,25 @@ func runC05(w *World, r *Report) {
 		mirrorKind(w, r, k, efi, dfi)
 	}
 	r.Stats["two_way_kinds"] = nKinds
+
+	// ---------------------------------------------------------------- extent
+	// list decoders advance by the size the decoded element reports; the encoder must have produced exactly
+	// that many bytes for it (size function ≡ bytes produced, as symbolic terms)
+	for _, k := range w.KindsL {
+		if k.Marshal == nil || k.Unmarshal == nil || k.Len == nil || strings.HasPrefix(k.Name, "protocol.") {
+			continue
+		}
+		pos := "-"
+		if fi := w.FuncOf(k.Marshal); fi != nil {
+			pos = w.Pos(fi.Decl.Pos())
+		}
+		sv := w.compareSize(k)
+		if sv.Verdict == VOK {
+			r.OK("extent", k.Name, "", pos, sv.Note, sv.Symbolic)
+		} else {
+			r.Fail(sv.Verdict, "extent", k.Name, "", pos, "the size the element reports is not the number of bytes its encoder produces, so a list walker that advances by it loses the following elements: "+sv.Diag)
+		}
+	}
 
 	// ---------------------------------------------------------------- trailing
 	for _, k := range w.KindsL {
@@ -144,6 +165,7 @@ func runC05(w *World, r *Report) {
 			continue
 		}
 		retainRule(w, r, dfi)
+		freshRule(w, r, dfi)
 	}
 }
 
@@ -797,4 +819,123 @@ func iteArms(t *Term) []*Term {
 		return out
 	}
 	return []*Term{t}
+}
+
+// freshRule: a value handed to a child decoder inside a decoding loop is either allocated in that
+// iteration, or the child decoder overwrites every field of it unconditionally. A scratch value shared
+// between iterations keeps what an earlier element left in the fields the later decode does not
+// assign (a mask, an optional part), and a shared pointer makes every list element the same object.
+func freshRule(w *World, r *Report, dfi *FuncInfo) {
+	info := dfi.Pkg.TypesInfo
+	li := 0
+	ast.Inspect(dfi.Decl.Body, func(n ast.Node) bool {
+		var body *ast.BlockStmt
+		switch l := n.(type) {
+		case *ast.ForStmt:
+			body = l.Body
+		case *ast.RangeStmt:
+			body = l.Body
+		default:
+			return true
+		}
+		loopPos := n.Pos()
+		ast.Inspect(body, func(m ast.Node) bool {
+			c, ok := m.(*ast.CallExpr)
+			if !ok {
+				return true
+			}
+			se, ok := unparen(c.Fun).(*ast.SelectorExpr)
+			if !ok || se.Sel.Name != "UnmarshalBinary" {
+				return true
+			}
+			x := unparen(se.X)
+			if u, ok := x.(*ast.UnaryExpr); ok && u.Op == token.AND {
+				x = unparen(u.X)
+			}
+			id, ok := x.(*ast.Ident)
+			if !ok {
+				return true // a field of the receiver or of another value: not a per-iteration scratch
+			}
+			obj, _ := info.Uses[id].(*types.Var)
+			if obj == nil || obj.IsField() {
+				return true
+			}
+			li++
+			inst := fmt.Sprintf("%s@loop#%d", id.Name, li)
+			if obj.Pos() >= body.Pos() && obj.Pos() <= body.End() {
+				r.OK("fresh", dfi.Key, inst, w.Pos(c.Pos()), id.Name+" is declared inside the loop body: a new value per element", false)
+				return true
+			}
+			// assigned a fresh allocation inside the body before the call?
+			fresh := false
+			ast.Inspect(body, func(q ast.Node) bool {
+				as, ok := q.(*ast.AssignStmt)
+				if !ok || as.Pos() > c.Pos() {
+					return true
+				}
+				for i, l := range as.Lhs {
+					if identObj(info, l) != obj || i >= len(as.Rhs) {
+						continue
+					}
+					switch rhs := unparen(as.Rhs[i]).(type) {
+					case *ast.CallExpr:
+						if fid, ok := unparen(rhs.Fun).(*ast.Ident); ok && (fid.Name == "new" || strings.HasPrefix(fid.Name, "New")) {
+							fresh = true
+						}
+						if fse, ok := unparen(rhs.Fun).(*ast.SelectorExpr); ok && strings.HasPrefix(fse.Sel.Name, "New") {
+							fresh = true
+						}
+					case *ast.UnaryExpr:
+						if _, ok := unparen(rhs.X).(*ast.CompositeLit); ok && rhs.Op == token.AND {
+							fresh = true
+						}
+					case *ast.CompositeLit:
+						fresh = true
+					}
+				}
+				return true
+			})
+			if fresh {
+				r.OK("fresh", dfi.Key, inst, w.Pos(c.Pos()), id.Name+" is assigned a new value inside the loop body before it is decoded into", false)
+				return true
+			}
+			// shared between iterations: acceptable only when the child decoder assigns every field unconditionally
+			// and the element is stored by value
+			if _, isPtr := obj.Type().Underlying().(*types.Pointer); isPtr {
+				r.Fail(VViolation, "fresh", dfi.Key, inst, w.Pos(c.Pos()), fmt.Sprintf("the loop at %s decodes every element into the same object %s (allocated once outside the loop): all list entries alias the last element", w.Pos(loopPos), id.Name))
+				return true
+			}
+			callee, _ := info.Uses[se.Sel].(*types.Func)
+			cfi := w.FuncOf(callee)
+			st := structOf(obj.Type())
+			if cfi == nil || st == nil {
+				r.Fail(VUndecided, "fresh", dfi.Key, inst, w.Pos(c.Pos()), "scratch value shared between iterations and the child decoder cannot be resolved")
+				return true
+			}
+			ds := w.Interpret(cfi, "decode")
+			uncond := map[string]bool{}
+			for _, s := range ds.Stores {
+				if s.Guard == "" && !s.Loop && s.Op == "=" {
+					p := strings.TrimPrefix(s.Path, "$.")
+					if i := strings.IndexAny(p, ".["); i >= 0 {
+						p = p[:i]
+					}
+					uncond[p] = true
+				}
+			}
+			var missing []string
+			for i := 0; i < st.NumFields(); i++ {
+				if !uncond[st.Field(i).Name()] {
+					missing = append(missing, st.Field(i).Name())
+				}
+			}
+			if len(missing) == 0 {
+				r.OK("fresh", dfi.Key, inst, w.Pos(c.Pos()), id.Name+" is shared between iterations, but "+cfi.Key+" assigns every field unconditionally", true)
+			} else {
+				r.Fail(VViolation, "fresh", dfi.Key, inst, w.Pos(c.Pos()), fmt.Sprintf("the loop at %s decodes every element into the one value %s declared outside it, and %s does not assign %s on every path: an element keeps what the previous one left there", w.Pos(loopPos), id.Name, cfi.Key, strings.Join(missing, ", ")))
+			}
+			return true
+		})
+		return true // an inner loop is visited again with its own body as the scope
+	})
 }
